@@ -132,10 +132,13 @@ fn enabled(sc: &Scenario, model: &[RefSeq], hist: &[Ev]) -> Vec<Ev> {
 }
 
 fn explore(rep: &Report, sc: &Scenario, label: &str) -> Outcome {
-    let mut seen: HashSet<Vec<RefSeq>> = HashSet::new();
+    // a state is the reference table plus the events that were repeated so far: the reference treats a repeated event as
+    // a no-op, the implementation need not, so histories that differ in a repetition are not merged
+    let dup_of = |h: &[Ev]| -> Vec<Ev> { let mut seen = HashSet::new(); let mut d: Vec<Ev> = h.iter().filter(|e| !matches!(e, Ev::Cleanup) && !seen.insert((*e).clone())).cloned().collect(); d.sort(); d };
+    let mut seen: HashSet<(Vec<RefSeq>, Vec<Ev>)> = HashSet::new();
     let mut frontier: VecDeque<(Vec<Ev>, Vec<RefSeq>)> = VecDeque::new();
     let init = vec![RefSeq::default(); sc.seqs.len()];
-    seen.insert(init.clone());
+    seen.insert((init.clone(), vec![]));
     frontier.push_back((vec![], init));
     let mut out = Outcome { states: 1, transitions: 0, executions: 0, max_depth: 0, distinct_returns: 0 };
     let mut returns_seen: HashSet<Vec<u8>> = HashSet::new();
@@ -178,7 +181,7 @@ fn explore(rep: &Report, sc: &Scenario, label: &str) -> Outcome {
             if asm.pending_count() != expect_pending {
                 rep.violation("pending_count differs from the number of incomplete sequences", describe(&format!("pending_count={} expected={}", asm.pending_count(), expect_pending)));
             }
-            if seen.insert(m2.clone()) {
+            if seen.insert((m2.clone(), dup_of(&h2))) {
                 out.states += 1;
                 frontier.push_back((h2, m2));
             }
@@ -262,6 +265,41 @@ fn timed_expiry(rep: &Report) -> serde_json::Value {
     json!({"orders_judged": judged.into_inner(), "orders_not_judged_because_the_machine_was_too_slow": inconclusive.into_inner()})
 }
 
+/// Long runs through one assembler: 1 000 messages of two and three fragments, each on its own sequence id, while
+/// leftovers accumulate - a repeated continuation after every completed message (which opens an entry that never
+/// completes) or a neighbouring sequence that never gets its last fragment. Every message is returned exactly at its last
+/// fragment, however many incomplete entries the assembler holds by then.
+fn long_runs(rep: &Report) {
+    for n in [2u64, 3] {
+        for leftover in 0..3usize {
+            let mut a = FragmentAssembler::with_timeout(Duration::from_secs(3600));
+            let mut first_lost: Option<u64> = None;
+            let mut spurious = 0u64;
+            for k in 0..1000u64 {
+                let seq = 10_000 + k * 2;
+                let part = |id: u64| vec![(k % 251) as u8, id as u8];
+                let mut got = vec![];
+                got.push(a.start_fragment(seq, n, None, part(n)));
+                for id in (1..n).rev() { got.push(a.add_fragment(seq, id, part(id))); }
+                let delivered_at_last = got.last().map(|g| g.is_some()).unwrap_or(false) && got[..got.len() - 1].iter().all(|g| g.is_none());
+                if !delivered_at_last && first_lost.is_none() { first_lost = Some(k); }
+                match leftover {
+                    // a late repetition of a continuation of the message just delivered
+                    0 => { if a.add_fragment(seq, 1, part(1)).is_some() { spurious += 1; } }
+                    // a neighbour that stays incomplete: only its header, or only a continuation
+                    1 => { if a.start_fragment(seq + 1, 2, None, vec![9]).is_some() { spurious += 1; } }
+                    _ => { if a.add_fragment(seq + 1, 1, vec![9]).is_some() { spurious += 1; } }
+                }
+                rep.add("evaluations", 1);
+            }
+            let kind = ["late repetition after delivery", "neighbour with a header only", "neighbour with a continuation only"][leftover];
+            if first_lost.is_some() || spurious > 0 {
+                rep.violation("a message is not returned at its last fragment once the assembler holds many incomplete entries", json!({"fragments_per_message": n, "leftover_kind": kind, "first_message_lost": first_lost, "spurious_returns": spurious, "pending_entries_at_the_end": a.pending_count()}));
+            }
+        }
+    }
+}
+
 /// A sender reuses its sequence id for its next message (OTP does, per process): after a message on id S has been
 /// delivered, a second message on S must be assembled like the first, in every arrival order, also when another
 /// sequence completed in between or fragments of S arrive again after its delivery.
@@ -328,6 +366,7 @@ pub fn run(rep: &Report) -> serde_json::Value {
     let thorough = rep.thorough();
     constructors(rep);
     sequence_id_reuse(rep);
+    long_runs(rep);
     let timed = timed_expiry(rep);
     rep.set_extra("timed_expiry", timed);
     let mut scenarios: Vec<(String, Scenario)> = vec![];
